@@ -1,9 +1,556 @@
-import DFV.Lemmas.C19
-/-! # C19 (under construction) -/
+import DFV.Lemmas.C19Tcd
+import DFV.Lemmas.C19Mesh
+import DFV.Lemmas.C19Demag
+import DFV.Lemmas.C19Conv
+/-!
+# C19 — topological and demagnetisation tools obey their physical invariances
+
+Property theorems about the model of `discretisedfield/tools/tools.py` (`DFV/Model/C19.lean`).
+Meshes, cell sizes, cell counts, validity masks, vectors, rotation matrices, scale factors and
+leaf functions (`sq` = square root, `Om` = Berg–Lüscher angle, `acos`, `asinh/atan/sqrt` of the
+Newell functions) are universally quantified; what a theorem needs of a leaf function is an
+explicit hypothesis, instantiated for the real functions in `Lemmas/C19Real.lean`.
+
+Level "proof, partial": Berg–Lüscher integrality, the hedgehog count and the quarter-turn
+invariance of the charge are NOT proved here (correspondence oracle only).
+-/
 namespace DFV.C19
 open DFV
 
-theorem dot_comm (a b : V3) : V3.dot a b = V3.dot b a := by
-  unfold V3.dot; ring
+/-! ## Vector algebra under rotations -/
+
+/-- `Qa · Qb = a · b` for every orthogonal `Q` (`QᵀQ = 1`). -/
+theorem dot_rot (q : M3) (h : q.IsOrth) (a b : V3) : V3.dot (q.mulVec a) (q.mulVec b) = V3.dot a b :=
+  dot_mulVec q h a b
+
+/-- `Qa × Qb = Q(a × b)` for every proper rotation. -/
+theorem cross_rot (q : M3) (h : q.IsRot) (a b : V3) :
+    V3.cross (q.mulVec a) (q.mulVec b) = q.mulVec (V3.cross a b) :=
+  cross_mulVec q h a b
+
+/-- the triple product of three transformed vectors is `det Q` times the original one … -/
+theorem triple_det (q : M3) (a b c : V3) :
+    V3.triple (q.mulVec a) (q.mulVec b) (q.mulVec c) = q.det * V3.triple a b c :=
+  triple_mulVec q a b c
+
+/-- … hence unchanged by a proper rotation … -/
+theorem triple_rot (q : M3) (h : q.IsRot) (a b c : V3) :
+    V3.triple (q.mulVec a) (q.mulVec b) (q.mulVec c) = V3.triple a b c := by
+  rw [triple_mulVec, h.2]; ring
+
+/-- … and it changes sign when all three vectors are reversed, while dot products do not. -/
+theorem triple_reversal (a b c : V3) :
+    V3.triple a.neg b.neg c.neg = -V3.triple a b c ∧ V3.dot a.neg b.neg = V3.dot a b := by
+  simp only [V3.triple, V3.dot, V3.cross, V3.neg]
+  constructor <;> ring
+
+example : M3.IsRot ⟨2/3, -1/3, 2/3, 2/3, 2/3, -1/3, -1/3, 2/3, 2/3⟩ := by
+  unfold M3.IsRot M3.IsOrth M3.det; norm_num
+example : M3.IsRot ⟨0, -1, 0, 1, 0, 0, 0, 0, 1⟩ := by
+  unfold M3.IsRot M3.IsOrth M3.det; norm_num
+
+/-! ## Orientation field -/
+
+/-- The orientation field of the rotated field is the rotated orientation field. -/
+theorem orientation_rot (sq : Rat → Rat) (q : M3) (h : q.IsOrth) (f : Fld) :
+    orientation sq (rotF q f) = rotF q (orientation sq f) :=
+  orientation_rotF sq q h f
+
+/-- Rescaling every vector by its own factor `s i ≠ 0` leaves the orientation field unchanged,
+for a square root that is positively homogeneous on the squared norms that occur
+(`√(s²x) = s√x`, true of the real square root for `s > 0`) and as long as no vector crosses
+the zero-norm threshold `1e-8` of `Field.orientation`. -/
+theorem orientation_scale (sq : Rat → Rat) (s : List Nat → Rat) (f : Fld)
+    (hs : ∀ i, s i ≠ 0)
+    (hsq : ∀ i, sq (s i * s i * (cellV f i).normSq) = s i * sq (cellV f i).normSq)
+    (hz : ∀ i, isZeroNorm (s i * sq (cellV f i).normSq) = isZeroNorm (sq (cellV f i).normSq)) :
+    orientation sq (scaleF s f) = orientation sq f :=
+  orientation_scaleF sq s f fun i => orient_smul sq (s i) _ (hs i) (hsq i) (hz i)
+
+/-- Every cell of the orientation field whose vector is not negligibly short holds a unit vector. -/
+theorem orientation_unit (sq : Rat → Rat) (f : Fld) (i : List Nat)
+    (hsq : sq (cellV f i).normSq * sq (cellV f i).normSq = (cellV f i).normSq)
+    (hz : isZeroNorm (sq (cellV f i).normSq) = false) :
+    (cellV (orientation sq f) i).normSq = 1 := by
+  rw [cellV_orientation]; exact orient_unit sq _ hsq hz
+
+/-- a square root table that is exact on the values used in the examples -/
+def sqEx (x : Rat) : Rat := if x = 25 then 5 else if x = 100 then 10 else if x = 1 then 1 else 0
+
+example : sqEx (2 * 2 * (V3.mk 3 4 0).normSq) = 2 * sqEx (V3.mk 3 4 0).normSq ∧
+    isZeroNorm (2 * sqEx (V3.mk 3 4 0).normSq) = isZeroNorm (sqEx (V3.mk 3 4 0).normSq) ∧
+    sqEx (V3.mk 3 4 0).normSq * sqEx (V3.mk 3 4 0).normSq = (V3.mk 3 4 0).normSq ∧
+    orient sqEx (V3.mk 3 4 0) = ⟨3/5, 4/5, 0⟩ := by
+  simp only [V3.normSq, V3.dot, sqEx, isZeroNorm, absR, orient, V3.sdiv, V3.zero]
+  norm_num
+
+/-! ## Topological charge density — both methods -/
+
+/-- Both methods are unchanged by a global proper rotation of all vectors: same result
+(mesh, validity, every value) or the same refusal. -/
+theorem tcd_rot_invariant (sq : Rat → Rat) (pi : Rat) (Om : Tri → Rat) (q : M3) (hq : q.IsRot) (f : Fld)
+    (m : Method) : tcd sq pi Om (rotF q f) m = tcd sq pi Om f m := by
+  by_cases hc : f.nvdim = 3 ∧ f.mesh.ndim = 2 ∧ m ≠ .other
+  · obtain ⟨h3, h2, hm⟩ := hc
+    rw [tcd_succeeds sq pi Om f m h3 h2 hm, tcd_succeeds sq pi Om (rotF q f) m h3 h2 hm]
+    congr 3
+    funext i
+    rw [tcdVal_rotF sq pi Om q hq]
+  · cases h1 : tcd sq pi Om (rotF q f) m with
+    | ok g => exact absurd (by obtain ⟨a, b, c, _⟩ := tcd_ok sq pi Om _ g m h1; exact ⟨a, b, c⟩) hc
+    | error e =>
+      cases h2 : tcd sq pi Om f m with
+      | ok g => exact absurd (by obtain ⟨a, b, c, _⟩ := tcd_ok sq pi Om _ g m h2; exact ⟨a, b, c⟩) hc
+      | error e' =>
+        cases m with
+        | continuous =>
+          have hc' : f.nvdim ≠ 3 ∨ f.mesh.ndim ≠ 2 := by
+            by_cases h3 : f.nvdim = 3
+            · right; intro h2'; exact hc ⟨h3, h2', by simp⟩
+            · left; exact h3
+          have e1 := tcdContinuous_err sq pi (rotF q f) hc'
+          have e2 := tcdContinuous_err sq pi f hc'
+          change tcdContinuous sq pi (rotF q f) = _ at h1
+          change tcdContinuous sq pi f = _ at h2
+          rw [e1] at h1; rw [e2] at h2
+          rw [← h1, ← h2]
+        | bergLuescher =>
+          change tcdBL sq Om (rotF q f) = _ at h1
+          change tcdBL sq Om f = _ at h2
+          unfold tcdBL at h1 h2
+          have hn : (rotF q f).nvdim = f.nvdim := rfl
+          have hd : (rotF q f).mesh = f.mesh := rfl
+          rw [hn, hd] at h1
+          by_cases h3 : f.nvdim ≠ 3
+          · rw [if_pos h3] at h1 h2; rw [← h1, ← h2]
+          · rw [if_neg h3] at h1 h2
+            by_cases h2' : f.mesh.ndim ≠ 2
+            · rw [if_pos h2'] at h1 h2; rw [← h1, ← h2]
+            · rw [if_neg h2'] at h2; cases h2
+        | other => cases h1; cases h2; rfl
+
+/-- Both methods change sign when all vectors are reversed (same mesh, same validity).  For
+the lattice method this needs the leaf to be odd in the triple product,
+`Ω(d₁₂,d₂₃,d₃₁,−t) = −Ω(d₁₂,d₂₃,d₃₁,t)` for `t ≠ 0` — true of `2·Im log((1+Σd + i t)/ρ)/(4π)`
+(`Lemmas/C19Real.omegaR_flip`). -/
+theorem tcd_reversal (sq : Rat → Rat) (pi : Rat) (Om : Tri → Rat)
+    (hOm : ∀ tr, tr.t ≠ 0 → Om (flipT tr) = -Om tr) (f q : Fld) (m : Method)
+    (h : tcd sq pi Om f m = .ok q) :
+    ∃ q', tcd sq pi Om (negF f) m = .ok q' ∧ q'.mesh = q.mesh ∧ q'.valid = q.valid ∧
+      q'.data.shape = q.data.shape ∧ ∀ i, (q'.data.get i).getD 0 0 = -(q.data.get i).getD 0 0 := by
+  obtain ⟨h3, h2, hm, rfl⟩ := tcd_ok sq pi Om f q m h
+  refine ⟨_, tcd_succeeds sq pi Om (negF f) m h3 h2 hm, rfl, rfl, rfl, ?_⟩
+  intro i
+  show tcdVal sq pi Om (negF f) m i = -tcdVal sq pi Om f m i
+  exact tcdVal_negF sq pi Om hOm f m i
+
+/-- Both methods vanish identically on a uniform field — for every validity mask, every
+cell size, periodic or open directions. -/
+theorem tcd_uniform_zero (sq : Rat → Rat) (pi : Rat) (Om : Tri → Rat) (f q : Fld) (v : V3) (hu : uniformF f v)
+    (m : Method) (h : tcd sq pi Om f m = .ok q) : ∀ i, q.data.get i = [0] := by
+  obtain ⟨_, _, _, rfl⟩ := tcd_ok sq pi Om f q m h
+  intro i
+  show [tcdVal sq pi Om f m i] = [0]
+  rw [tcdVal_uniform sq pi Om f v hu]
+
+/-- Both methods are unchanged by rescaling the vector lengths, cell by cell (hypotheses as in
+`orientation_scale`). -/
+theorem tcd_scale_invariant (sq : Rat → Rat) (pi : Rat) (Om : Tri → Rat) (s : List Nat → Rat) (f : Fld)
+    (hs : ∀ i, s i ≠ 0)
+    (hsq : ∀ i, sq (s i * s i * (cellV f i).normSq) = s i * sq (cellV f i).normSq)
+    (hz : ∀ i, isZeroNorm (s i * sq (cellV f i).normSq) = isZeroNorm (sq (cellV f i).normSq))
+    (m : Method) (h3 : f.nvdim = 3) (h2 : f.mesh.ndim = 2) (hm : m ≠ .other) :
+    tcd sq pi Om (scaleF s f) m = tcd sq pi Om f m := by
+  rw [tcd_succeeds sq pi Om f m h3 h2 hm, tcd_succeeds sq pi Om (scaleF s f) m h3 h2 hm]
+  congr 3
+  funext i
+  rw [tcdVal_scaleF sq pi Om s f (fun i => orient_smul sq (s i) _ (hs i) (hsq i) (hz i))]
+
+/-- Scaling the mesh by `lam` and translating it by `t` divides both densities by `lam²`
+(`lam = 1`: a translation changes nothing). -/
+theorem tcd_mesh_scaling (sq : Rat → Rat) (pi : Rat) (Om : Tri → Rat) (lam : Rat) (t : List Rat) (f q : Fld)
+    (m : Method) (h : tcd sq pi Om f m = .ok q) :
+    ∃ q', tcd sq pi Om (affF lam t f) m = .ok q' ∧ q'.valid = q.valid ∧ q'.data.shape = q.data.shape ∧
+      q'.mesh = affMesh lam t q.mesh ∧
+      ∀ i, (q'.data.get i).getD 0 0 = (q.data.get i).getD 0 0 / (lam * lam) := by
+  obtain ⟨h3, h2, hm, rfl⟩ := tcd_ok sq pi Om f q m h
+  have h2' : (affF lam t f).mesh.ndim = 2 := by
+    show (tab f.mesh.region.ndim _).length = 2
+    rw [tab_length]; exact h2
+  refine ⟨_, tcd_succeeds sq pi Om (affF lam t f) m h3 h2' hm, rfl, rfl, rfl, ?_⟩
+  intro i
+  show tcdVal sq pi Om (affF lam t f) m i = tcdVal sq pi Om f m i / (lam * lam)
+  exact tcdVal_affF sq pi Om lam t f h2 m i
+
+/-! ## Topological charge -/
+
+/-- The charge (absolute or not, either method) is unchanged by a global proper rotation. -/
+theorem charge_rot_invariant (sq : Rat → Rat) (pi : Rat) (Om : Tri → Rat) (q : M3) (hq : q.IsRot) (f : Fld)
+    (m : Method) (a : Bool) : charge sq pi Om (rotF q f) m a = charge sq pi Om f m a := by
+  unfold charge
+  rw [tcd_rot_invariant sq pi Om q hq f m]
+  rfl
+
+/-- Reversing all vectors negates the charge and keeps the absolute charge. -/
+theorem charge_reversal (sq : Rat → Rat) (pi : Rat) (Om : Tri → Rat)
+    (hOm : ∀ tr, tr.t ≠ 0 → Om (flipT tr) = -Om tr) (f : Fld) (m : Method) (c ca : Rat)
+    (h : charge sq pi Om f m false = .ok c) (ha : charge sq pi Om f m true = .ok ca) :
+    charge sq pi Om (negF f) m false = .ok (-c) ∧ charge sq pi Om (negF f) m true = .ok ca := by
+  unfold charge at h ha ⊢
+  have hn : (negF f).nvdim = f.nvdim := rfl
+  have hd : (negF f).mesh = f.mesh := rfl
+  rw [hn, hd]
+  by_cases h3 : f.nvdim ≠ 3
+  · rw [if_pos h3] at h; cases h
+  · rw [if_neg h3] at h ha ⊢
+    by_cases h2 : f.mesh.ndim ≠ 2
+    · rw [if_pos h2] at h; cases h
+    · rw [if_neg h2] at h ha ⊢
+      cases hq : tcd sq pi Om f m with
+      | error e => rw [hq] at h; cases h
+      | ok q =>
+        rw [hq] at h ha
+        obtain ⟨q', hq', hm, _, hs, hv⟩ := tcd_reversal sq pi Om hOm f q m hq
+        rw [hq']
+        obtain ⟨e1, e2⟩ := integrateAll_neg q q' hs hv hm
+        simp only at h ha ⊢
+        injection h with h; injection ha with ha
+        rw [e1, e2, h, ha]
+        exact ⟨rfl, rfl⟩
+
+/-- A uniform field has zero charge and zero absolute charge. -/
+theorem charge_uniform_zero (sq : Rat → Rat) (pi : Rat) (Om : Tri → Rat) (f : Fld) (v : V3) (hu : uniformF f v)
+    (m : Method) (a : Bool) (c : Rat) (h : charge sq pi Om f m a = .ok c) : c = 0 := by
+  unfold charge at h
+  split at h
+  · cases h
+  · split at h
+    · cases h
+    · cases hq : tcd sq pi Om f m with
+      | error e => rw [hq] at h; cases h
+      | ok q =>
+        rw [hq] at h
+        injection h with h
+        rw [← h]
+        apply integrateAll_zero
+        intro i
+        rw [tcd_uniform_zero sq pi Om f q v hu m hq i]
+        rfl
+
+/-- The charge is unchanged by translating the mesh and by scaling it with any `lam ≠ 0`:
+the density scales by `1/lam²`, the cell area by `lam²`. -/
+theorem charge_mesh_invariant (sq : Rat → Rat) (pi : Rat) (Om : Tri → Rat) (lam : Rat) (hl : lam ≠ 0)
+    (t : List Rat) (f : Fld) (m : Method) (a : Bool) :
+    charge sq pi Om (affF lam t f) m a = charge sq pi Om f m a := by
+  unfold charge
+  have hn : (affF lam t f).nvdim = f.nvdim := rfl
+  have hd : (affF lam t f).mesh.ndim = f.mesh.ndim := by
+    show (tab f.mesh.region.ndim _).length = _
+    rw [tab_length]; rfl
+  rw [hn, hd]
+  by_cases h3 : f.nvdim ≠ 3
+  · rw [if_pos h3, if_pos h3]
+  · rw [if_neg h3, if_neg h3]
+    by_cases h2 : f.mesh.ndim ≠ 2
+    · rw [if_pos h2, if_pos h2]
+    · rw [if_neg h2, if_neg h2]
+      have h3' : f.nvdim = 3 := Classical.not_not.mp h3
+      have h2' : f.mesh.ndim = 2 := Classical.not_not.mp h2
+      cases m with
+      | other => rfl
+      | continuous =>
+        have hq := tcd_succeeds sq pi Om f .continuous h3' h2' (by simp)
+        obtain ⟨q', hq', _, hs, hm, hv⟩ := tcd_mesh_scaling sq pi Om lam t f _ .continuous hq
+        rw [hq, hq']
+        simp only
+        congr 1
+        exact integrateAll_aff a _ q' lam hl hs hv (by rw [hm]; exact affMesh_ratProd lam t f.mesh h2')
+      | bergLuescher =>
+        have hq := tcd_succeeds sq pi Om f .bergLuescher h3' h2' (by simp)
+        obtain ⟨q', hq', _, hs, hm, hv⟩ := tcd_mesh_scaling sq pi Om lam t f _ .bergLuescher hq
+        rw [hq, hq']
+        simp only
+        congr 1
+        exact integrateAll_aff a _ q' lam hl hs hv (by rw [hm]; exact affMesh_ratProd lam t f.mesh h2')
+
+/-- The charge is unchanged by rescaling the vector lengths. -/
+theorem charge_scale_invariant (sq : Rat → Rat) (pi : Rat) (Om : Tri → Rat) (s : List Nat → Rat) (f : Fld)
+    (hs : ∀ i, s i ≠ 0)
+    (hsq : ∀ i, sq (s i * s i * (cellV f i).normSq) = s i * sq (cellV f i).normSq)
+    (hz : ∀ i, isZeroNorm (s i * sq (cellV f i).normSq) = isZeroNorm (sq (cellV f i).normSq))
+    (m : Method) (a : Bool) (h3 : f.nvdim = 3) (h2 : f.mesh.ndim = 2) (hm : m ≠ .other) :
+    charge sq pi Om (scaleF s f) m a = charge sq pi Om f m a := by
+  unfold charge
+  rw [tcd_scale_invariant sq pi Om s f hs hsq hz m h3 h2 hm]
+  rfl
+
+/-! ## Emergent magnetic field -/
+
+/-- `F_kl = m·(∂_k m × ∂_l m)` is unchanged by a global proper rotation of the vectors. -/
+theorem emergent_rot_invariant (q : M3) (hq : q.IsRot) (f : Fld) (h3 : f.nvdim = 3) (hd : f.mesh.ndim = 3) :
+    emergent (rotF q f) = emergent f := by
+  rw [emergent_eq f h3 hd, emergent_eq (rotF q f) h3 hd]
+  congr 3
+  funext i
+  rw [emSpec_rotF q hq, emSpec_rotF q hq, emSpec_rotF q hq]
+
+/-- It changes sign under reversal (it is cubic in the field) and vanishes for uniform fields. -/
+theorem emergent_reversal_uniform (f : Fld) (k l : Nat) (i : List Nat) :
+    emSpec (negF f) k l i = -emSpec f k l i ∧ (∀ v, uniformF f v → emSpec f k l i = 0) :=
+  ⟨emSpec_negF f k l i, fun v hu => emSpec_uniform f v hu k l i⟩
+
+/-! ## Neighbouring-cell angles -/
+
+/-- The value stored at cell `i` is `acos` of the (clipped) dot product of the unit vectors of
+cell `i` and of its neighbour one step further along the direction. -/
+theorem angle_is_angle (sq acos deg : Rat → Rat) (f g : Fld) (dir : String)
+    (h : neighbourAngle sq acos deg f dir "rad" = .ok g) :
+    ∃ ax, indexOf? f.mesh.region.dims dir = some ax ∧
+      ∀ i, g.data.get i = [acos (clip1 (V3.dot (orient sq (cellV f i)) (orient sq (cellV f (stepAx i ax)))))] := by
+  unfold neighbourAngle at h
+  split at h
+  · cases h
+  · split at h
+    · cases h
+    · rename_i ax hax
+      split at h
+      · cases h
+      · split at h
+        · cases h
+        · split at h
+          · cases h
+          · injection h with h
+            refine ⟨ax, hax, ?_⟩
+            intro i
+            rw [← h]
+            simp [nbDot]
+
+/-- For unit vectors the clip is the identity (`|û·v̂| ≤ 1`): it only guards against rounding. -/
+theorem angle_unit_vectors (a b : V3) (ha : a.normSq = 1) (hb : b.normSq = 1) :
+    clip1 (V3.dot a b) = V3.dot a b :=
+  clip1_id _ (dot_unit_range a b ha hb).1 (dot_unit_range a b ha hb).2
+
+/-- Every angle lies in `[0, π]`, for any `acos` mapping `[-1, 1]` into `[0, π]`
+(`Real.arccos_nonneg`, `Real.arccos_le_pi`). -/
+theorem angle_range (sq acos deg : Rat → Rat) (pi : Rat)
+    (hacos : ∀ x, -1 ≤ x → x ≤ 1 → 0 ≤ acos x ∧ acos x ≤ pi) (f g : Fld) (dir : String)
+    (h : neighbourAngle sq acos deg f dir "rad" = .ok g) (i : List Nat) :
+    0 ≤ (g.data.get i).getD 0 0 ∧ (g.data.get i).getD 0 0 ≤ pi := by
+  obtain ⟨ax, _, hv⟩ := angle_is_angle sq acos deg f g dir h
+  rw [hv i]
+  exact hacos _ (clip1_range _).1 (clip1_range _).2
+
+/-- The angles live on a mesh one cell shorter in the direction, shifted by half a cell,
+with the same cell size — and a single cell along the direction is refused. -/
+theorem angle_mesh (m : Mesh) (hm : m.Inv) (ax : Nat) (hax : ax < m.ndim) :
+    (2 ≤ m.nAt ax → ∃ m', angleMesh m ax = .ok m' ∧ m'.n = setAt m.n ax (m.nAt ax - 1) ∧ m'.ndim = m.ndim ∧
+      ∀ a, a < m.ndim → m'.region.lo a = m.region.lo a + (if a = ax then m.cellAt a / 2 else 0) ∧
+        m'.region.hi a = m.region.hi a - (if a = ax then m.cellAt a / 2 else 0) ∧ m'.cellAt a = m.cellAt a) ∧
+    (m.nAt ax = 1 → ∃ e, angleMesh m ax = .error e) := by
+  constructor
+  · intro h2
+    obtain ⟨m', hm', _, hgeo, _, hnd⟩ := angleMesh_ok m hm ax hax h2
+    exact ⟨m', hm', angleMesh_n m hm ax hax h2 m' hm', hnd, hgeo⟩
+  · exact angleMesh_single m hm ax hax
+
+/-- The angles do not change under a global rotation (or reflection) of the vectors. -/
+theorem angle_rot_invariant (sq acos deg : Rat → Rat) (q : M3) (hq : q.IsOrth) (f : Fld) (dir units : String) :
+    neighbourAngle sq acos deg (rotF q f) dir units = neighbourAngle sq acos deg f dir units := by
+  unfold neighbourAngle
+  have e : ∀ ax, nbDot sq (rotF q f) ax = nbDot sq f ax := fun ax => funext fun i => nbDot_rotF sq q hq f ax i
+  simp only [e]
+  rfl
+
+/-! ## Demagnetisation tensor -/
+
+/-- The two tensor builders evaluate the same function at the same points: cell `j` of the
+`2n−1` mesh has its centre exactly at `(j − n + 1)·cell`, where `linspace` puts its point. -/
+theorem demag_two_builders_agree (pi : Rat) (m tm : Mesh) (hm : m.Inv) (h3 : m.ndim = 3)
+    (h : tensorMesh m = .ok tm) (j : List Nat) (hj : ∀ a, a < 3 → j.getD a 0 < 2 * m.nAt a - 1) :
+    tensorFld pi tm j = tensorArr pi m j ∧
+    ∀ a, a < 3 → arrPoint m a (j.getD a 0) = ((j.getD a 0 : Nat) - (m.nAt a : Rat) + 1) * m.cellAt a := by
+  refine ⟨tensor_builders_agree pi m tm hm h3 h j hj, ?_⟩
+  intro a ha
+  exact (tensor_points_agree m tm hm h a (by omega) (j.getD a 0) (hj a ha)).2
+
+/-- Pointwise trace of the Newell function, for ARBITRARY leaf functions: in
+`f(x,y,z) + f(y,z,x) + f(z,x,y)` the arcsinh and the square-root terms cancel pairwise and
+only `−|xyz|` times the three arctangent leaves survives. -/
+theorem newell_trace_pointwise (asinh atan sqrt : Rat → Rat) (x y z : Rat) :
+    evalTerms asinh atan sqrt (newellF x y z) + evalTerms asinh atan sqrt (newellF y z x)
+        + evalTerms asinh atan sqrt (newellF z x y)
+      = -absR (x * y * z) *
+          (evalLeaf asinh atan sqrt (.atan (absR (y * z)) (absR x) (x ^ 2 + y ^ 2 + z ^ 2)) +
+           evalLeaf asinh atan sqrt (.atan (absR (z * x)) (absR y) (x ^ 2 + y ^ 2 + z ^ 2)) +
+           evalLeaf asinh atan sqrt (.atan (absR (x * y)) (absR z) (x ^ 2 + y ^ 2 + z ^ 2))) := by
+  have := newellF_trace (K := Rat) (evalLeaf asinh atan sqrt) x y z
+  simp only [evalK_rat, Rat.cast_id] at this
+  exact this
+
+/-- Real-space trace of the tensor: `N_xx + N_yy + N_zz = −δ` at every cell of the displacement
+mesh (displacement `(i·c0, j·c1, k·c2)`, any cell edges, the cell sizes permuted with the
+coordinates as the code does).  The one analytic ingredient,
+`atan(bc/(aR)) + atan(ca/(bR)) + atan(ab/(cR)) = π/2` for `a,b,c > 0`, `R = √(a²+b²+c²)`, is a
+hypothesis on the abstract leaves (proved for the real functions in `Lemmas/C19Real`). -/
+theorem demag_trace_real_space (asinh atan sqrt : Rat → Rat) (pi c0 c1 c2 : Rat) (hpi : pi ≠ 0)
+    (h0 : 0 < c0) (h1 : 0 < c1) (h2 : 0 < c2)
+    (hat : ∀ a b c : Rat, 0 < a → 0 < b → 0 < c →
+      atan (b * c / (a * sqrt (a ^ 2 + b ^ 2 + c ^ 2))) + atan (c * a / (b * sqrt (a ^ 2 + b ^ 2 + c ^ 2)))
+        + atan (a * b / (c * sqrt (a ^ 2 + b ^ 2 + c ^ 2))) = pi / 2) (i j k : Int) :
+    evalTerms asinh atan sqrt ((nAll pi c0 c1 c2 (i * c0) (j * c1) (k * c2)).getD 0 [])
+      + evalTerms asinh atan sqrt ((nAll pi c0 c1 c2 (i * c0) (j * c1) (k * c2)).getD 1 [])
+      + evalTerms asinh atan sqrt ((nAll pi c0 c1 c2 (i * c0) (j * c1) (k * c2)).getD 2 [])
+      = if i = 0 ∧ j = 0 ∧ k = 0 then -1 else 0 := by
+  have hat' : ∀ a b c : Rat, 0 < a → 0 < b → 0 < c →
+      evalLeaf asinh atan sqrt (.atan (b * c) a (a ^ 2 + b ^ 2 + c ^ 2))
+        + evalLeaf asinh atan sqrt (.atan (c * a) b (a ^ 2 + b ^ 2 + c ^ 2))
+        + evalLeaf asinh atan sqrt (.atan (a * b) c (a ^ 2 + b ^ 2 + c ^ 2)) = pi / 2 := by
+    intro a b c ha hb hc
+    simp only [evalLeaf, ha.ne', hb.ne', hc.ne', if_false]
+    exact hat a b c ha hb hc
+  have := trace_grid (K := Rat) (evalLeaf asinh atan sqrt) (pi / 2) pi c0 c1 c2 hpi h0 h1 h2 hat' i j k
+  unfold traceK at this
+  simp only [evalK_rat, Rat.cast_id] at this
+  rw [this]
+  have : -(2 * (pi / 2) / pi) = -1 := by field_simp
+  rw [this]
+
+example : ∀ a b c : Rat, 0 < a → 0 < b → 0 < c →
+    (fun _ : Rat => (1 : Rat) / 2) (b * c / (a * (fun x : Rat => x) (a ^ 2 + b ^ 2 + c ^ 2)))
+      + (fun _ : Rat => (1 : Rat) / 2) (c * a / (b * (fun x : Rat => x) (a ^ 2 + b ^ 2 + c ^ 2)))
+      + (fun _ : Rat => (1 : Rat) / 2) (a * b / (c * (fun x : Rat => x) (a ^ 2 + b ^ 2 + c ^ 2))) = (3 : Rat) / 2 := by
+  intros; norm_num
+
+/-! ## Demagnetising field -/
+
+/-- `demag_field`: what the zero-padded FFT product computes (circular convolution on the
+`2n−1` grid, cropped at `n−1`) is the linear convolution `H_a(q) = Σ_b Σ_{q'} N_ab(q−q') m_b(q')`
+at every cell of the mesh. -/
+theorem demag_field_linear_convolution (T : NDA (List Rat)) (f g : Fld) (h : demagField T f = .ok g)
+    (a : Nat) (ha : a < 3) (q0 q1 q2 : Nat)
+    (h0 : q0 < f.mesh.nAt 0) (h1 : q1 < f.mesh.nAt 1) (h2 : q2 < f.mesh.nAt 2) :
+    (g.data.get [q0, q1, q2]).getD a 0 = linConv T f a [q0, q1, q2] := by
+  unfold demagField at h
+  split at h
+  · cases h
+  · split at h
+    · cases h
+    · split at h
+      · cases h
+      · split at h
+        · cases h
+        · injection h with h
+          rw [← h]
+          show (tab 3 fun a => circConv T f a _).getD a 0 = _
+          rw [getD_tab _ _ _ _ ha]
+          simp only [List.getD_cons_zero, List.getD_cons_succ]
+          exact circConv_eq_linConv T f a q0 q1 q2 h0 h1 h2
+
+/-- Sum rule for a uniformly magnetised cuboid: if the real-space tensor has trace `−δ`
+(centre cell `n−1` of the `2n−1` grid), then at EVERY cell the three demagnetising field
+components obtained by magnetising along x, y, z add up to `−M`; hence so do their means. -/
+theorem cuboid_sum_rule (T : NDA (List Rat)) (m : Mesh) (M : Rat)
+    (hT : ∀ j0 j1 j2, (T.get [j0, j1, j2]).getD 0 0 + (T.get [j0, j1, j2]).getD 1 0 + (T.get [j0, j1, j2]).getD 2 0
+      = if j0 = m.nAt 0 - 1 ∧ j1 = m.nAt 1 - 1 ∧ j2 = m.nAt 2 - 1 then -1 else 0)
+    (q0 q1 q2 : Nat) (h0 : q0 < m.nAt 0) (h1 : q1 < m.nAt 1) (h2 : q2 < m.nAt 2) :
+    linConv T (uniF m M 0) 0 [q0, q1, q2] + linConv T (uniF m M 1) 1 [q0, q1, q2]
+      + linConv T (uniF m M 2) 2 [q0, q1, q2] = -M := by
+  have key : ∀ a, a < 3 → linConv T (uniF m M a) a [q0, q1, q2]
+      = sum3 (m.nAt 0) (m.nAt 1) (m.nAt 2) fun r0 r1 r2 =>
+          (T.get [q0 + (m.nAt 0 - 1) - r0, q1 + (m.nAt 1 - 1) - r1, q2 + (m.nAt 2 - 1) - r2]).getD a 0 * M := by
+    intro a ha
+    unfold linConv
+    simp only [sumTo, uniF, NDA.const, List.getD_cons_zero, List.getD_cons_succ]
+    have e : ∀ b, b < 3 → (tab 3 fun b => if b = a then M else (0 : Rat)).getD b 0 = if b = a then M else 0 :=
+      fun b hb => getD_tab _ _ _ _ hb
+    rcases (by omega : a = 0 ∨ a = 1 ∨ a = 2) with rfl | rfl | rfl
+    · simp only [e 0 (by omega), e 1 (by omega), e 2 (by omega), symIdx]
+      simp [sum3, sumTo_zero]
+    · simp only [e 0 (by omega), e 1 (by omega), e 2 (by omega), symIdx]
+      simp [sum3, sumTo_zero]
+    · simp only [e 0 (by omega), e 1 (by omega), e 2 (by omega), symIdx]
+      simp [sum3, sumTo_zero]
+  rw [key 0 (by omega), key 1 (by omega), key 2 (by omega), ← sum3_add, ← sum3_add]
+  rw [sum3_single (m.nAt 0) (m.nAt 1) (m.nAt 2) q0 q1 q2 h0 h1 h2]
+  · have := hT (q0 + (m.nAt 0 - 1) - q0) (q1 + (m.nAt 1 - 1) - q1) (q2 + (m.nAt 2 - 1) - q2)
+    rw [if_pos ⟨by omega, by omega, by omega⟩] at this
+    linear_combination M * this
+  · intro r0 r1 r2 hr0 hr1 hr2 hne
+    have := hT (q0 + (m.nAt 0 - 1) - r0) (q1 + (m.nAt 1 - 1) - r1) (q2 + (m.nAt 2 - 1) - r2)
+    rw [if_neg (by omega)] at this
+    linear_combination M * this
+
+/-! ## Refusals -/
+
+/-- Fields of the wrong component or spatial dimension, unknown directions and unknown methods
+are refused by every tool. -/
+theorem refusals (sq acos deg : Rat → Rat) (pi : Rat) (Om : Tri → Rat) (f : Fld) :
+    ((f.nvdim ≠ 3 ∨ f.mesh.ndim ≠ 2) → ∀ m a, (∃ e, tcd sq pi Om f m = .error e) ∧ ∃ e, charge sq pi Om f m a = .error e) ∧
+    (∃ e, tcd sq pi Om f .other = .error e) ∧
+    ((f.nvdim ≠ 3 ∨ f.mesh.ndim ≠ 3) → (∃ e, emergent f = .error e) ∧ ∀ d, ∃ e, countBps sq pi f d = .error e) ∧
+    (∀ d u, (f.nvdim ≠ 3 ∨ indexOf? f.mesh.region.dims d = none ∨ (u ≠ "rad" ∧ u ≠ "deg")) →
+      ∃ e, neighbourAngle sq acos deg f d u = .error e) ∧
+    (∀ d, indexOf? f.mesh.region.dims d = none → ∃ e, countBps sq pi f d = .error e) := by
+  refine ⟨?_, ⟨_, rfl⟩, ?_, ?_, ?_⟩
+  · intro hc m a
+    have ht : ∃ e, tcd sq pi Om f m = .error e := by
+      cases ht : tcd sq pi Om f m with
+      | error e => exact ⟨e, rfl⟩
+      | ok q =>
+        obtain ⟨h3, h2, _, _⟩ := tcd_ok sq pi Om f q m ht
+        rcases hc with hc | hc
+        · exact absurd h3 hc
+        · exact absurd h2 hc
+    refine ⟨ht, ?_⟩
+    unfold charge
+    split
+    · exact ⟨_, rfl⟩
+    · split
+      · exact ⟨_, rfl⟩
+      · obtain ⟨e, he⟩ := ht
+        rw [he]; exact ⟨_, rfl⟩
+  · intro hc
+    constructor
+    · unfold emergent
+      split
+      · exact ⟨_, rfl⟩
+      · split
+        · exact ⟨_, rfl⟩
+        · rename_i h3 hd
+          rcases hc with hc | hc
+          · exact absurd hc h3
+          · exact absurd hc hd
+    · intro d
+      unfold countBps
+      split
+      · exact ⟨_, rfl⟩
+      · split
+        · exact ⟨_, rfl⟩
+        · rename_i hd h3
+          rcases hc with hc | hc
+          · exact absurd hc h3
+          · exact absurd hc hd
+  · intro d u hc
+    unfold neighbourAngle
+    split
+    · exact ⟨_, rfl⟩
+    · rename_i h3
+      split
+      · exact ⟨_, rfl⟩
+      · rename_i ax hax
+        split
+        · exact ⟨_, rfl⟩
+        · rename_i hu
+          rcases hc with hc | hc | hc
+          · exact absurd hc h3
+          · rw [hc] at hax; cases hax
+          · exact absurd hc hu
+  · intro d hd
+    unfold countBps
+    split
+    · exact ⟨_, rfl⟩
+    · split
+      · exact ⟨_, rfl⟩
+      · rw [hd]; exact ⟨_, rfl⟩
 
 end DFV.C19
